@@ -504,6 +504,7 @@ pub fn run_parent(p: &dyn Property, tier: Tier) -> RunResult {
     pending.reverse();
     let mut running: Vec<Running> = vec![];
     let mut partials: BTreeMap<usize, Vec<Json>> = BTreeMap::new();
+    let mut kill_retries: BTreeMap<(usize, u64), u32> = BTreeMap::new();
     loop {
         while running.len() < maxpar {
             if let Some((shard, skip, respawns)) = pending.pop() {
@@ -567,6 +568,19 @@ pub fn run_parent(p: &dyn Property, tier: Tier) -> RunResult {
                         let curcase = shm::read_cur(&cur);
                         if let Some(s) = stats {
                             partials.entry(r.shard).or_default().push(s);
+                        }
+                        // SIGKILL does not come from the case itself (the CPU budget announces itself with SIGXCPU, a
+                        // stack overflow with SIGSEGV/SIGABRT): it is the kernel's out-of-memory killer or an operator
+                        // on a loaded machine. The same case is run again, twice at most, before it is held against it.
+                        if what == "sigkill" {
+                            if let Some((seq, _)) = &curcase {
+                                let n = kill_retries.entry((r.shard, *seq)).or_insert(0u32);
+                                if *n < 2 {
+                                    *n += 1;
+                                    pending.push((r.shard, seq.saturating_sub(1), r.respawns + 1));
+                                    continue;
+                                }
+                            }
                         }
                         match curcase {
                             Some((seq, case)) if st.signal().is_some() || stderr_txt.contains("stack overflow") || stderr_txt.contains("memory allocation") => {
